@@ -18,6 +18,17 @@ def main():
     for t, r in comp.map(tasks, fn=work.do_task):
         res[t["key"]] = r
     comp.close()
+    # a failing case is still a detector (a regression shows up as a NEW key) and sampled selections must not shift when
+    # a family grows: a case (and its quick flag) that an earlier corpus kept is never dropped.  corpus/pinned_<prop>.json
+    # records every id ever kept and every id ever in the quick tier.
+    pin_path = f'/verif/corpus/pinned_{prop}.json'
+    pins = json.load(open(pin_path)) if os.path.exists(pin_path) else {"ids": [], "quick": []}
+    pinned_ids, pinned_quick = set(pins["ids"]), set(pins["quick"])
+    if os.path.exists(f'/verif/corpus/{prop}.json'):
+        prev = json.load(open(f'/verif/corpus/{prop}.json'))
+        pinned_ids |= {c["id"] for c in prev["cases"]}
+        pinned_quick |= {c["id"] for c in prev["cases"] if c.get("quick")}
+    quick_ids |= pinned_quick
     keep_fail = cfg.get("keep_fail", 4)
     kept, excluded, findings = [], [], []
     nfail = 0
@@ -32,7 +43,7 @@ def main():
         c = dict(c); c["quick"] = c["id"] in quick_ids
         if r["findings"]:
             stats["failing"] += 1
-            pinned = bool(c.get("pin"))
+            pinned = bool(c.get("pin")) or c["id"] in pinned_ids
             is_fixed = c.get("family") == "fixed"
             if pinned or (is_fixed and nfail_fixed < keep_fail_fixed) or (not is_fixed and nfail < keep_fail):
                 if is_fixed and not pinned: nfail_fixed += 1
@@ -50,6 +61,7 @@ def main():
     out = {"property": prop, "generated_by": "tools/curate.py", "stats": dict(stats), "excluded_known_defect_duplicates": excluded, "cases": kept}
     os.makedirs('/verif/corpus', exist_ok=True)
     json.dump(out, open(f'/verif/corpus/{prop}.json', 'w'), indent=0)
+    json.dump({"ids": sorted({c["id"] for c in kept} | pinned_ids), "quick": sorted({c["id"] for c in kept if c["quick"]} | pinned_quick)}, open(pin_path, 'w'))
     seen = set(); uniq = []
     for f in findings:
         if f["key"] not in seen:
